@@ -116,12 +116,17 @@ def main():
             continue
         r = find(pid, pattern, 60000, time.time() + 90)
         if r is None:
-            print('NOT FOUND', fid)
+            print('NOT FOUND', fid, '(kept as it was)' if fid in old else '')
+            if fid in old:
+                out.append(old[fid])
             continue
         scn, v = r
         out.append({'id': fid, 'property': pid, 'status': 'open', 'what': what, 'pattern': pattern,
                     'example_signature': v['sig'], 'example_message': v['msg'], 'scenario': scn})
         print('ok', fid, len(json.dumps(scn)), v['msg'][:100])
+    # entries recorded with tools/addfinding.py (not in LIST) are kept
+    done = set(f['id'] for f in out)
+    out += [f for fid, f in old.items() if fid not in done]
     doc['findings'] = sorted(out, key=lambda f: f['id'])
     json.dump(doc, open(path, 'w'), indent=1, sort_keys=True)
 
